@@ -348,6 +348,8 @@ type world struct {
 	svc      *svc
 	batch    int
 	retained []kept
+	// noStateByHash: the concurrent round judges state readers itself (with re-validation)
+	noStateByHash bool
 
 	crashedInPrune bool
 }
@@ -950,6 +952,9 @@ func (w *world) sweepBlock(bc *blockchain.Blockchain, store db.KeyValueReader, n
 		}
 	}
 	// state by hash: retained blocks must answer; the block below the floor may or may not resolve
+	if w.noStateByHash {
+		return
+	}
 	if st, closer, err := bc.StateAtBlockHash(th.Hash); err == nil {
 		if tst, tcl, terr := tw.StateAtBlockNumber(n); terr == nil {
 			w.cmpState(zone+":state-by-hash", n, st, tst, add)
